@@ -101,26 +101,26 @@ func runC17(p *load.Program, r *core.Report) {
 				stp = append(stp, Point{e.To(), 0})
 			}
 			var probs []string
-			// Kill reachable (inside the Range closure created on this path)
+			// every member started so far is killed: a complete fan-out of Kill over the group on every path
 			killOK := false
-			for _, h := range walkAvoid(stp, func(in ssa.Instruction) bool { return isReturn(in) }, func(in ssa.Instruction) bool {
-				mc, ok := in.(*ssa.MakeClosure)
-				if !ok {
-					return false
+			nearMiss := ""
+			isKillAll := func(in ssa.Instruction) bool {
+				done, why := memberFanout(in, "group", "Kill")
+				if why != "" {
+					nearMiss = why
 				}
-				k := false
-				eachInstr(mc.Fn.(*ssa.Function), func(i2 ssa.Instruction) {
-					if callsNamed(i2, "Kill") {
-						k = true
-					}
-				})
-				return k
-			}) {
-				_ = h
+				return done != nil
+			}
+			sawFanout := len(walkAvoid(stp, isReturn, isKillAll)) > 0
+			if sawFanout && reaches(stp, isKillAll, isReturn) == nil {
 				killOK = true
 			}
 			if !killOK {
-				probs = append(probs, "members already started are not killed")
+				msg := "members already started are not all killed"
+				if nearMiss != "" {
+					msg += " (" + nearMiss + ")"
+				}
+				probs = append(probs, msg)
 			}
 			isRestore := func(in ssa.Instruction) bool {
 				for _, op := range ops {
@@ -300,24 +300,8 @@ func runC17(p *load.Program, r *core.Report) {
 						probs = append(probs, "the old state returned by the swap is not tested against Stopping")
 					} else {
 						isFanout := func(in ssa.Instruction) bool {
-							cc := callCommon(in)
-							if cc == nil || !callsNamed(in, "Range") {
-								return false
-							}
-							for _, a := range cc.Args {
-								if mc, ok := a.(*ssa.MakeClosure); ok {
-									sends := false
-									eachInstr(mc.Fn.(*ssa.Function), func(i2 ssa.Instruction) {
-										if callsNamed(i2, "SendExit", "RouteSendExit", "Kill") {
-											sends = true
-										}
-									})
-									if sends {
-										return true
-									}
-								}
-							}
-							return false
+							done, _ := memberFanout(in, "group", "SendExit", "RouteSendExit", "Kill")
+							return done != nil
 						}
 						isRecord := func(in ssa.Instruction) bool {
 							s2, ok := in.(*ssa.Store)
@@ -469,6 +453,8 @@ func runC17(p *load.Program, r *core.Report) {
 
 	// ---- A5 (= C10 N4)
 	c10Stop(p, r, "C17.A5 stop-reports-truthfully", stop, term)
+	// ---- A6 (= C10 N5) no self-deadlock on the member group
+	mapReentrancy(p, r, "C17.A6 member-group-lock-not-reentered", "C17.A6", "application")
 	_ = a
 }
 
@@ -522,7 +508,7 @@ func isStateWordLoad(v ssa.Value) bool {
 
 func c10Stop(p *load.Program, r *core.Report, rule string, stop, term *ssa.Function) {
 	rid := strings.SplitN(rule, " ", 2)[0]
-	r.Floor(rule, 2)
+	r.Floor(rule, 3)
 	st := appStateConsts(p)
 	fn := fname(stop)
 	key := rid + "|" + fn + "|nil-returns"
@@ -590,6 +576,40 @@ func c10Stop(p *load.Program, r *core.Report, rule string, stop, term *ssa.Funct
 		r.Bad(rule, key, fn, p.Pos(stop.Pos()), inst, strings.Join(probs, "; ")+": the caller believes everything under the application is gone while members are still running")
 	} else {
 		r.OK(rule, key, fn, p.Pos(stop.Pos()), inst, fmt.Sprintf("%d nil return(s), each after the stopped channel or state Loaded", n))
+	}
+	// the reason the callback will be given (kill / shutdown) is recorded before the members are taken
+	// down: a member killed synchronously completes the termination inside the fan-out
+	{
+		key3 := rid + "|" + fn + "|reason-before-fanout"
+		inst3 := "stop records its reason (kill or shutdown) before it takes the members down"
+		var fan ssa.Instruction
+		eachInstr(stop, func(in ssa.Instruction) {
+			if fan != nil {
+				return
+			}
+			if _, why := memberFanout(in, "group", "Kill", "SendExit"); why == "" {
+				if d, _ := memberFanout(in, "group", "Kill", "SendExit"); d != nil {
+					fan = in
+				}
+			}
+		})
+		if fan == nil {
+			r.Bad(rule, key3, fn, p.Pos(stop.Pos()), inst3, "stop does not take every member down (no complete Kill/SendExit fan-out over the group)")
+		} else {
+			isRecord := func(in ssa.Instruction) bool {
+				s2, ok := in.(*ssa.Store)
+				if !ok {
+					return false
+				}
+				own, fl := fieldOwner(s2.Addr)
+				return own != nil && own.Obj().Name() == "application" && fl == "reason"
+			}
+			if hit := reaches([]Point{{stop.Blocks[0], 0}}, isRecord, func(in ssa.Instruction) bool { return in == fan }); hit != nil {
+				r.Bad(rule, key3, fn, p.Pos(fan.Pos()), inst3, "the members are taken down before a.reason is set: a member that is killed synchronously finishes the application inside the loop and the Terminate callback is told 'normal' instead of kill/shutdown")
+			} else {
+				r.OK(rule, key3, fn, p.Pos(fan.Pos()), inst3, "every path to the fan-out passes the store of the reason")
+			}
+		}
 	}
 	// close(stopped) only when group empty
 	key2 := rid + "|" + fname(term) + "|close-when-empty"
@@ -902,8 +922,26 @@ func runC10(p *load.Program, r *core.Report) {
 			case !instrReachable(wait, netstop) || instrReachable(netstop, wait):
 				r.Bad(rule3, key2, fname(stopF), p.Pos(netstop.Pos()), inst2, "the network is stopped before the wait")
 			default:
-				// wait is on the graceful (force == false) edge
-				r.OK(rule3, key2, fname(stopF), p.Pos(wait.Pos()), inst2, "Wait precedes NetworkStop")
+				// with force == false every path from the entry to NetworkStop passes the Wait
+				// (paths are restricted to those consistent with the value of the force parameter)
+				forcePar := paramOfType(stopF, "bool", 0)
+				missed := false
+				if forcePar == nil {
+					missed = reaches([]Point{{stopF.Blocks[0], 0}}, func(in ssa.Instruction) bool { return in == wait }, func(in ssa.Instruction) bool { return in == netstop }) != nil
+				} else {
+					leaf := func(v ssa.Value) string {
+						if v == ssa.Value(forcePar) || isParamValue(v, forcePar) {
+							return "force"
+						}
+						return ""
+					}
+					missed = reachesUnder([]Point{{stopF.Blocks[0], 0}}, leaf, map[string]bool{"force": false}, func(in ssa.Instruction) bool { return in == wait }, func(in ssa.Instruction) bool { return in == netstop }) != nil
+				}
+				if missed {
+					r.Bad(rule3, key2, fname(stopF), p.Pos(wait.Pos()), inst2, "with force == false a path reaches NetworkStop without waiting for the processes: the graceful stop returns while processes are still running")
+				} else {
+					r.OK(rule3, key2, fname(stopF), p.Pos(wait.Pos()), inst2, "Wait precedes NetworkStop on the graceful (force == false) edge")
+				}
 			}
 			key3 := "C10.N3|stop|exit-from-parent"
 			inst3 := "graceful stop sends each process a shutdown exit from its parent pid (so exit trapping cannot keep it alive)"
@@ -933,6 +971,7 @@ func runC10(p *load.Program, r *core.Report) {
 	term := p.Func("node", "application", "terminate")
 	if stop != nil && term != nil {
 		c10Stop(p, r, "C10.N4 application-stop-truthful", stop, term)
+		mapReentrancy(p, r, "C10.N5 member-group-lock-not-reentered", "C10.N5", "application")
 	}
 }
 
